@@ -1,7 +1,12 @@
 /* C15 harness: interpret an operation script against the real libmps.
  *
  * One op per line on stdin:
- *   new | threads <k> | algo u|s | goal i|a|c | prec <digits>
+ *   new | threads <k> | algo u|s | goal i|a|c | prec <bits>
+ *   setdeg <n>                     mps_context_set_degree called directly (public API); the active polynomial counts as
+ *                                  no longer usable when <n> differs from its degree
+ *   format <0..4> | startphase <0..3> | jacobi <0|1> | crude <0|1> | avoidmp <0|1> | abort
+ *   poly d <deg> <inprec> c0 .. cdeg  monomial, double coefficients, mps_context_set_input_prec (<inprec>) afterwards
+ *   poly c <deg> c0 .. cdeg        polynomial in the Chebyshev base, integer coefficients
  *   poly m <deg> c0 .. cdeg        monomial, integer coefficients (c0.. = 0 gives zero roots)
  *   poly s <n> a1 b1 .. an bn      secular equation sum a_i/(x-b_i) = 1, integer data
  *   poly p <text>                  inline polynomial through the parser
@@ -11,7 +16,8 @@
  *   solve | solve_async | get_roots | free_poly | free | leakcheck | mark
  *
  * After each op one line
- *   st <lineno> <op> ctx=<0|1> init= n= deg= zr= err= exitreq= sec= bmpc= heap=<bytes> thr=<threads>
+ *   st <lineno> <op> ctx=<0|1> init= n= deg= zr= err= exitreq= sec= bmpc= heap=<bytes> thr=<threads> <note>
+ *   fl <lineno> over=<mps_context_get_over_max> phase=<lastphase> haserr=<mps_context_has_errors> algo= goal= oprec= fmt= sph= jac= crude= avoid= secdeg=
  * is printed (fields from the private struct mps_context), and after each solve
  *   roots <lineno> <count> phase=<p> err=<0|1>
  *   r <i> <status> <re:hexmant@exp16> <im> <radius mantissa %a> <radius exp2>
@@ -232,10 +238,29 @@ int main (int argc, char **argv)
                                      rest[0] == 'c' ? MPS_OUTPUT_GOAL_COUNT : MPS_OUTPUT_GOAL_ISOLATE);
       else if (!strcmp (op, "prec"))
         mps_context_set_output_prec (ctx, atol (rest));
+      else if (!strcmp (op, "setdeg"))
+        {
+          int k = atoi (rest);
+          if (k != ctx->n) have_poly = 0;
+          mps_context_set_degree (ctx, k);
+        }
+      else if (!strcmp (op, "format"))
+        mps_context_set_output_format (ctx, (mps_output_format) atoi (rest));
+      else if (!strcmp (op, "startphase"))
+        mps_context_set_starting_phase (ctx, (mps_phase) atoi (rest));
+      else if (!strcmp (op, "jacobi"))
+        mps_context_set_jacobi_iterations (ctx, atoi (rest) != 0);
+      else if (!strcmp (op, "crude"))
+        mps_context_set_crude_approximation_mode (ctx, atoi (rest) != 0);
+      else if (!strcmp (op, "avoidmp"))
+        mps_context_set_avoid_multiprecision (ctx, atoi (rest) != 0);
+      else if (!strcmp (op, "abort"))
+        mps_context_abort (ctx);
       else if (!strcmp (op, "poly"))
         {
           char kind = rest[0];
           char *p = rest + 1;
+          long inprec = -1;
           mps_polynomial *P = NULL;
           if (kind == 'm')
             {
@@ -289,6 +314,29 @@ int main (int argc, char **argv)
               while (*p == ' ') p++;
               P = mps_parse_inline_poly_from_string (ctx, p);
             }
+          else if (kind == 'd')
+            {
+              long deg = strtol (p, &p, 10), i;
+              inprec = strtol (p, &p, 10);
+              mps_monomial_poly *mp = mps_monomial_poly_new (ctx, deg);
+              for (i = 0; i <= deg; i++)
+                {
+                  double c = strtod (p, &p);
+                  mps_monomial_poly_set_coefficient_d (ctx, mp, i, c, 0.0);
+                }
+              P = MPS_POLYNOMIAL (mp);
+            }
+          else if (kind == 'c')
+            {
+              long deg = strtol (p, &p, 10), i;
+              mps_chebyshev_poly *cp = mps_chebyshev_poly_new (ctx, deg, MPS_STRUCTURE_REAL_INTEGER);
+              for (i = 0; i <= deg; i++)
+                {
+                  long c = strtol (p, &p, 10);
+                  mps_chebyshev_poly_set_coefficient_i (ctx, cp, i, c, 0);
+                }
+              P = MPS_POLYNOMIAL (cp);
+            }
           else if (kind == 'f')
             {
               /* .pol text through mps_parse_string; "\n" in the script stands for a newline */
@@ -304,6 +352,7 @@ int main (int argc, char **argv)
             {
               keep (P);
               mps_context_set_input_poly (ctx, P);
+              if (inprec >= 0) mps_context_set_input_prec (ctx, inprec);
               have_poly = !mps_context_has_errors (ctx) || ctx->active_poly == P;
             }
           else note = "nopoly";
@@ -373,6 +422,13 @@ int main (int argc, char **argv)
                 elems (ctx->mfpc1, sizeof (mpc_t)), elems (ctx->mfppc1, sizeof (mpc_t)), elems (ctx->spar1, sizeof (mps_boolean)),
                 elems (ctx->again_old, sizeof (mps_boolean)), elems (ctx->fap1, sizeof (double)), elems (ctx->fap2, sizeof (double)),
                 elems (ctx->dap1, sizeof (rdpe_t)), elems (ctx->dpc1, sizeof (cdpe_t)), elems (ctx->dpc2, sizeof (cdpe_t)));
+      if (ctx)
+        printf ("fl %d over=%d phase=%d haserr=%d algo=%d goal=%d oprec=%ld fmt=%d sph=%d jac=%d crude=%d avoid=%d secdeg=%d\n", lineno,
+                (int)mps_context_get_over_max (ctx), (int)ctx->lastphase, (int)mps_context_has_errors (ctx),
+                ctx->algorithm == MPS_ALGORITHM_SECULAR_GA, (int)ctx->output_config->goal, (long)ctx->output_config->prec,
+                (int)ctx->output_config->format, (int)ctx->input_config->starting_phase, (int)ctx->jacobi_iterations,
+                (int)ctx->crude_approximation_mode, (int)ctx->avoid_multiprecision,
+                ctx->secular_equation ? MPS_POLYNOMIAL (ctx->secular_equation)->degree : -1);
       if (ctx)
         printf ("st %d %s ctx=1 init=%d n=%d deg=%d zr=%d err=%d exitreq=%d sec=%d bmpc=%d heap=%zu thr=%d %s\n",
                 lineno, op, (int)ctx->initialized, ctx->n, ctx->deg, ctx->zero_roots, (int)ctx->error_state,
